@@ -774,10 +774,16 @@ class Program:
                 if '::' in q:            # dict-valued registry: Class::method -> values
                     cn, mn = q.split('::')
                     out += [(g, ctx) for g in self.registry_methods(cn, mn, ctx)]
+                elif q.startswith('!'):     # constructor of an unrelated class
+                    cn, mn = q[1:].rsplit('.', 1)
+                    out.append((self.method(cn, mn), self.cls(cn).qn))
                 else:
-                    g = self.fn(q)
-                    if ctx and g.cls is not None and g.cls.qn not in self.mro(ctx):
-                        continue
+                    if q.count('.') == 1 and q.split('.')[0][:1].isupper():
+                        g = self.method(*q.split('.'))
+                        if ctx and self.lookup_method(ctx, g.name) is not g:
+                            continue
+                    else:
+                        g = self.fn(q)
                     out.append((g, ctx if g.cls is not None else None))
             except AnalysisError:
                 continue
@@ -929,6 +935,8 @@ class Program:
 # bound methods that are values of the dict returned by that method.
 INDIRECT = {
     ('verify', 'verify'): ['BaseConstraintVerifier::verifiers'],
+    ('verify', 'VerificationClass'): ['!Verification.__init__', '!PandasVerification.__init__',
+                                      '!PandasDetection.__init__', '!DatabaseVerification.__init__'],
     ('verify', 'detected_records_writer'): ['PandasConstraintVerifier.write_detected_records',
                                            'DatabaseConstraintVerifier.write_detected_records'],
     ('detect', 'detected_records_writer'): ['PandasConstraintVerifier.write_detected_records'],
